@@ -34,7 +34,8 @@ ASSUMPTIONS = [
     "bounds: <= 2 columns per header, 5 column descriptors, <= 3 rows; read shapes N <= 4",
 ]
 MENU = [{"name": "a", "datatype": "float64", "unit": "km / s"}, {"name": "a", "datatype": "float64"}, {"name": "a", "datatype": "float64", "unit": ""},
-        {"name": "b", "datatype": "float64", "unit": "km / s"}, {"name": "a", "datatype": "int64", "unit": "km / s"}, {"name": "a", "datatype": "float64", "unit": "d"}]
+        {"name": "b", "datatype": "float64", "unit": "km / s"}, {"name": "a", "datatype": "int64", "unit": "km / s"}, {"name": "a", "datatype": "float64", "unit": "d"},
+        {"name": "a", "datatype": "float32", "unit": "km / s"}]
 
 
 def bounds(tier):
